@@ -10,7 +10,7 @@ EXTENDS Integers, FiniteSets, TLC
 CONSTANTS Dev
 
 Decoders == {"ss-legacy-req", "ss2022-req", "ss2022-udp-c2s", "ss2022-udp-s2c", "ss-legacy-udp",
-             "vmess-req-header", "trojan-req", "trojan-udp-c2s", "trojan-udp-s2c", "socks5-udp-local"}
+             "vmess-req-header", "vmess-req-body", "vmess-resp-body", "trojan-req", "trojan-udp-c2s", "trojan-udp-s2c", "socks5-udp-local"}
 
 Classes == {"BadAddrType",           \* address type byte not one of the protocol's three
             "DomainBeyond",          \* domain length byte larger than what follows
@@ -20,12 +20,18 @@ Classes == {"BadAddrType",           \* address type byte not one of the protoco
             "Empty",                 \* no content at all
             "BadCommand",            \* command byte not supported
             "LenBeyond",             \* datagram length field larger than what follows
-            "NonUtf8Domain"}         \* domain bytes that are not UTF-8
+            "NonUtf8Domain",         \* domain bytes that are not UTF-8
+            "ChunkShorterThanPadding", \* VMess body chunk: declared length smaller than the padding drawn for it (+ tag)
+            "ChunkShorterThanTag"}   \* VMess body chunk: declared length smaller than an authentication tag
 
 HasPadding(d) == d \in {"ss2022-req", "ss2022-udp-c2s", "ss2022-udp-s2c", "vmess-req-header"}
 HasCommand(d) == d \in {"vmess-req-header", "trojan-req"}
 HasLen(d)     == d \in {"trojan-udp-c2s", "trojan-udp-s2c"}
-Applies(d, c) == /\ (c = "PaddingBeyond" => HasPadding(d))
+IsBody(d) == d \in {"vmess-req-body", "vmess-resp-body"}
+Applies(d, c) == /\ (IsBody(d) <=> c \in {"ChunkShorterThanPadding", "ChunkShorterThanTag"})
+                 \* the real client always asks for authenticated lengths, which count the bytes before the tag
+                 /\ (c = "ChunkShorterThanTag" => d # "vmess-resp-body")
+                 /\ (c = "PaddingBeyond" => HasPadding(d))
                  /\ (c = "BadCommand" => HasCommand(d))
                  /\ (c = "LenBeyond" => HasLen(d))
                  /\ (c = "ShorterThanFixed" => d \notin {"trojan-req", "ss-legacy-req", "ss-legacy-udp"})
